@@ -30,7 +30,8 @@ func fuzzSeeds(f *testing.F, ver int) {
 	for _, s := range []string{"", "/", ":", "//", "::", "CVSS:", "CVSS:3.1", "CVSS:3.1/", "CVSS:3.1//", "CVSS:3.1/AV:N/AV:N", "CVSS:3.1/AV:", "CVSS:3.1/:N",
 		"CVSS:2.0/AV:N/AC:L/Au:N/C:P/I:P/A:C", "AV:N/AC:L/Au:N/C:P/I:P/A:C/", "AV:N/AC:L/Au:N/C:P/I:P/A:C/E:H", "AV:N/AC:L/Au:N/C:P/I:P/A:C/RC:C/RL:U/E:H",
 		"\x00", strings.Repeat("/", 64), strings.Repeat("AV:N/", 40), "CVSS:3.1/AV:N/AC:L/PR:N/UI:N/S:U/C:H/I:H/A:H/E:X/RL:X/RC:X/CR:X/IR:X/AR:X/MAV:X/MAC:X/MPR:X/MUI:X/MS:X/MC:X/MI:X/MA:X",
-		"cvss:3.1/av:n/ac:l/pr:n/ui:n/s:u/c:h/i:h/a:h", " CVSS:3.1/AV:N/AC:L/PR:N/UI:N/S:U/C:H/I:H/A:H ", "CVSS:3.1/AV:N/AC:L/PR:N/UI:N/S:U/C:H/I:H/A:H/CVSS:3.1"} {
+		"cvss:3.1/av:n/ac:l/pr:n/ui:n/s:u/c:h/i:h/a:h", "\ufeffCVSS:3.1/AV:N/AC:L/PR:N/UI:N/S:U/C:H/I:H/A:H", "CVSS:3.1/AV:N/AC:L/PR:N/UI:N/S:U/C:H/I:H/A:H\r\n",
+		"(AV:N/AC:L/Au:N/C:P/I:P/A:C)", "CVSS2#AV:N/AC:L/Au:N/C:P/I:P/A:C", "AV:N/AC:L/Au:N/C:P/I:P/A:C\r", "AV:N /AC:L/Au:N/C:P/I:P/A:C", "AV:N/AC:L/Au:N/C:P/I:P/A:C/E:ND/RL:ND/RC:ND/CDP:ND/TD:ND/CR:ND/IR:ND/AR:ND", " CVSS:3.1/AV:N/AC:L/PR:N/UI:N/S:U/C:H/I:H/A:H ", "CVSS:3.1/AV:N/AC:L/PR:N/UI:N/S:U/C:H/I:H/A:H/CVSS:3.1"} {
 		add(s)
 	}
 }
